@@ -43,6 +43,32 @@ fn check_cache(limit: usize, pkt_len: usize, n: usize) -> bool {
     false
 }
 
+/// C04: a data packet carrying its own EXT_FTI is pushed into a fresh object receiver; nothing may panic
+fn check_push(fec: u8, l: u64, e: u16, b: u32, sbn: u32, esi: u32, payload_len: usize) -> bool {
+    let o = match fec {
+        2 => oti::Oti { fec_encoding_id: oti::FECEncodingID::ReedSolomonGF2M, fec_instance_id: 0, maximum_source_block_length: b, encoding_symbol_length: e,
+                        max_number_of_parity_symbols: 2, scheme_specific: Some(oti::SchemeSpecific::ReedSolomon(oti::ReedSolomonGF2MSchemeSpecific { m: 8, g: 1 })), inband_fti: true },
+        _ => oti::Oti { fec_encoding_id: oti::FECEncodingID::NoCode, fec_instance_id: 0, maximum_source_block_length: b, encoding_symbol_length: e,
+                        max_number_of_parity_symbols: 0, scheme_specific: None, inband_fti: true },
+    };
+    let p = crate::common::pkt::Pkt { payload: vec![0x55u8; payload_len], transfer_length: l, esi, sbn, toi: 5, fdt_id: None, cenc: lct::Cenc::Null,
+        inband_cenc: true, close_object: false, source_block_length: b, sender_current_time: false };
+    let bytes = alc::new_alc_pkt(&o, &0u128, 1, &p, crate::common::Profile::RFC6726, SystemTime::now());
+    let r = std::panic::catch_unwind(|| {
+        let pkt = alc::parse_alc_pkt(&bytes).unwrap();
+        let mut rcv = mk_receiver(1 << 20);
+        rcv.push(&pkt, SystemTime::now());
+        rcv.state = State::Error;
+    });
+    if r.is_err() {
+        let func = if fec == 2 { "init" } else { "push_to_block2" };
+        report(func, format!("{{\"fec\":{},\"l\":{},\"e\":{},\"b\":{},\"sbn\":{},\"esi\":{},\"payload_len\":{}}}", fec, l, e, b, sbn, esi, payload_len),
+               "panic while pushing the packet into ObjectReceiver::push".to_string(), "Ok or Err, no panic".to_string());
+        return true;
+    }
+    false
+}
+
 fn num(inp: &str, k: &str) -> usize {
     inp.split(&format!("\"{}\":", k)).nth(1).unwrap().trim().split(|c: char| !c.is_ascii_digit()).next().unwrap().parse().unwrap()
 }
@@ -50,7 +76,10 @@ fn num(inp: &str, k: &str) -> usize {
 #[test]
 fn search() {
     if let Ok(inp) = std::env::var("VERIF_REPLAY_INPUT") {
-        let bad = if inp.contains("\"limit\"") { check_cache(num(&inp, "limit"), num(&inp, "pkt_len"), num(&inp, "n")) } else { false };
+        std::panic::set_hook(Box::new(|_| {}));
+        let bad = if inp.contains("\"limit\"") { check_cache(num(&inp, "limit"), num(&inp, "pkt_len"), num(&inp, "n")) }
+            else if inp.contains("\"fec\"") { check_push(num(&inp, "fec") as u8, num(&inp, "l") as u64, num(&inp, "e") as u16, num(&inp, "b") as u32, num(&inp, "sbn") as u32, num(&inp, "esi") as u32, num(&inp, "payload_len")) }
+            else { false };
         println!("WSTATS {{\"evaluations\":1,\"mode\":\"replay\"}}");
         assert!(!bad, "replayed input still fails");
         return;
@@ -63,6 +92,21 @@ fn search() {
             if found < 2 && check_cache(limit, pkt_len, 40) { found += 1; }
         }
     }
+    std::panic::set_hook(Box::new(|_| {}));
+    let mut found2 = 0;
+    for fec in [0u8, 2] {
+        for (l, e, b) in [(10u64, 1u16, 5u32), (10, 3, 2), (1, 1, 1), (4000, 16, 64)] {
+            let t = (l + e as u64 - 1) / e as u64;
+            let n = ((t + b as u64 - 1) / b as u64) as u32;
+            for sbn in [0u32, n.saturating_sub(1), n, n + 1, n + 7, 4000, 65535] {
+                for esi in [0u32, 1, b, 255] {
+                    evals += 1;
+                    if found2 < 2 && check_push(fec, l, e, b, sbn, esi, e as usize) { found2 += 1; }
+                }
+            }
+        }
+    }
+    found += found2;
     println!("WSTATS {{\"evaluations\":{},\"mode\":\"search\"}}", evals);
     assert!(found == 0, "witness found");
 }
